@@ -201,7 +201,11 @@ def _family(tab, pid, up):
     return out
 
 
-def _history_case(rng):
+HIST_MOTIFS = ["reuse_older", "reuse_younger", "reparent", "exit", "new", "caller_recycled", "parent_reused",
+               "grandchild_reuse_older"]
+
+
+def _history_case(rng, mot=None, op=None):
     """process_iter() consumed on tab0, create_time() read on some objects, table change, one call."""
     n = rng.choice([3, 4, 5, 6, 8, 12])
     pids = rng.sample(range(2, 300), n - 1)
@@ -217,10 +221,10 @@ def _history_case(rng):
     d0 = {e[0]: e for e in tab0}
     tab = [list(e) for e in tab0]
     d = {e[0]: e for e in tab}
-    op = rng.choice(OPS)
+    op = op or rng.choice(OPS)
     child = rng.choice(kids[pid])
-    mot = rng.choice(["reuse_older", "reuse_older", "reuse_younger", "reparent", "exit", "new", "caller_recycled",
-                      "parent_reused", "grandchild_reuse_older"])
+    mot = mot or rng.choice(["reuse_older", "reuse_older", "reuse_younger", "reparent", "exit", "new", "caller_recycled",
+                             "parent_reused", "grandchild_reuse_older"])
     if mot == "reuse_older":
         d[child][2] = max(0, d0[pid][2] - rng.choice([1, 3, 20]))
     elif mot == "reuse_younger":
@@ -425,6 +429,53 @@ def _vanish_exhaustive():
     return out
 
 
+def _ownpid_block():
+    """Wave 8: the observer's own os.getpid() has the SAME NUMBER as a PID of the inspected table (foreign PID namespace /
+    another procfs through PROCFS_PATH): the handle's PID, or a relative's.  Systematic (own fixed rng, never sampled):
+    (a) every table over PIDs {5,7} x ppid in {5,7,unlisted 3}, every caller alive / recycled / gone, all four calls, own pid =
+        the caller's PID or the other listed PID; for a recycled caller also after is_running() has already set _pid_reused;
+    (b) every history motif of _history_case (warm process_iter() cache, then the table changes) x all four calls x own pid =
+        the handle's PID / one of its children / its parent, with and without a prior is_running() on the stale handle."""
+    import itertools
+    import random
+    out = []
+    P = [5, 7]
+    for combo in itertools.product(P + [3], repeat=2):
+        tab = [[p, pp, 10] for p, pp in zip(P, combo)]
+        for pid in P:
+            for state in ("alive", "recycled", "gone"):
+                t = [e for e in tab if not (state == "gone" and e[0] == pid)]
+                ident = 10 if state != "recycled" else 4
+                for own in P:
+                    for pre in ((None, "is_running") if state == "recycled" else (None,)):
+                        for op in OPS:
+                            c = _mk(op, t, pid, ident, False, None, [],
+                                    "ownpid-%s-%s-%s%s" % (op, state, "self" if own == pid else "other", "-flagged" if pre else ""))
+                            c["ownpid"] = own
+                            if pre:
+                                c["pre"] = pre
+                            out.append(c)
+    r = random.Random(811)
+    for mot in HIST_MOTIFS:
+        for op in OPS:
+            for who in ("self", "child", "parent"):
+                c = _history_case(r, mot=mot, op=op)
+                tab0 = c["hist"]["tab0"]
+                pid = c["pid"]
+                if who == "self":
+                    own = pid
+                elif who == "child":
+                    own = [e[0] for e in tab0 if e[1] == pid][0]
+                else:
+                    own = [e[1] for e in tab0 if e[0] == pid][0] or pid
+                c["ownpid"] = own
+                if r.random() < 0.5:
+                    c["pre"] = "is_running"
+                c["cls"] = "ownpid-" + c["cls"] + "-" + who + ("-flagged" if c.get("pre") else "")
+                out.append(c)
+    return out
+
+
 def gen_cases(rng, tier):
     n_rand = {"quick": 200, "thorough": 14000, "search": 2500}[tier]
     max_hang = {"quick": 40, "thorough": 400, "search": 40}[tier]
@@ -446,6 +497,7 @@ def gen_cases(rng, tier):
         cases.extend(_vanish_exhaustive())
         cases.extend(_tick0_exhaustive())
         cases.extend(_copy_exhaustive())
+        cases.extend(_ownpid_block())
     # ---- multi-step histories (warm process_iter() cache) and vanish points
     n_hist = {"quick": 120, "thorough": 4000, "search": 800}[tier]
     n_van = {"quick": 100, "thorough": 4000, "search": 600}[tier]
@@ -737,6 +789,20 @@ def _write_stat(root, pid, ppid, start):
 
 
 def impl_run(case, coq, env):
+    """own-pid aliasing (case['ownpid']): os.getpid answers a PID of the table for the whole case -- from the creation of the
+    handle to the call -- as it does for an observer whose own PID number is also listed in the inspected (foreign) procfs."""
+    own = case.get("ownpid")
+    if own is None:
+        return _impl_run(case, coq, env)
+    real_getpid = os.getpid
+    os.getpid = lambda: own
+    try:
+        return _impl_run(case, coq, env)
+    finally:
+        os.getpid = real_getpid
+
+
+def _impl_run(case, coq, env):
     import builtins
     import psutil
     from psutil import _pslinux
@@ -843,6 +909,14 @@ def impl_run(case, coq, env):
         # the copy protocol raised: no object was created, nothing can be asked
         os.listdir = real_listdir
         return T("NoCopy", T(nocopy))
+    if case.get("pre") == "is_running":
+        # an earlier is_running() on the handle after the change: sets _pid_reused on a stale handle (never used with a
+        # vanished caller: the sticky _gone flag belongs to C01)
+        try:
+            obj.is_running()
+        except BaseException:
+            os.listdir = real_listdir
+            raise
     # ---- patches: vanish points (k-th open of the victim's stat file), legacy vanish after the ppid_map() snapshot,
     #      lowest-PID cache
     real_ppid_map = psutil._ppid_map
